@@ -111,6 +111,11 @@ def oracle(line: str) -> typing.Optional[str]:
     if c in ('gf32', 'gf64'):
         buf, size, off = unhex(t[1]), int(t[2]), int(t[3])
         return None if size > len(buf) else str(field(buf, size, off, int(c[2:])))
+    if c == 'pyser':
+        return oracle_pyser(int(t[1]), t[2].split(';') if len(t) > 2 else [])
+    if c == 'pydes':
+        e = oracle_pydes(unhex(t[1]), t[2].split(';') if len(t) > 2 else [])
+        return None if e is None else canon_pydes(line, e)
     if c == 'xz':
         buf, size, off, ln = unhex(t[1]), int(t[2]), int(t[3]), int(t[4])
         if size > len(buf):
@@ -179,6 +184,191 @@ def oracle(line: str) -> typing.Optional[str]:
             return judge_f16_pack(x, str(field(nb, len(nb), off, 16))) and put_bits(nb, off, 16, 0) == put_bits(buf, off, 16, 0)
         return Pred(ok, 'rc 0, 16 bits at offset %d hold a half that %s; every other bit unchanged' % (off, describe_f16_pack(x)))
     return None
+
+
+FMT = {2: '<e', 4: '<f', 8: '<d'}
+
+
+def pack_float(size: int, x: float) -> bytes:
+    try:
+        return struct.pack(FMT[size], x)
+    except OverflowError:
+        return struct.pack(FMT[size], float('inf') if x > 0 else float('-inf'))
+
+
+def int_bits(v: int, n: int) -> typing.List[int]:
+    return [(v >> i) & 1 for i in range(n)]
+
+
+def bytes_bits(b: bytes) -> typing.List[int]:
+    return [(x >> i) & 1 for x in b for i in range(8)]
+
+
+def bits_int(bits: typing.List[int]) -> int:
+    return sum(b << i for i, b in enumerate(bits))
+
+
+def oracle_pyser(n: int, ops: typing.List[str]) -> typing.Optional[str]:
+    """Serializer semantics demanded by the property: every add_* writes exactly the value's bits at the cursor and advances it;
+    nothing else changes.  None if the sequence leaves the documented usage (capacity incl. the spare byte, alignment, ranges)."""
+    mem = [0] * (8 * (n + 1))
+    cur, lim = 0, 8 * (n + 1)
+    stack: typing.List[tuple] = []
+    base = 0
+
+    def put(bits: typing.List[int], need_aligned: bool = False) -> bool:
+        nonlocal cur
+        if need_aligned and cur % 8:
+            return False
+        if base + cur + len(bits) + 8 > lim + (0 if not stack else 0):
+            return False
+        for i, b in enumerate(bits):
+            if mem[base + cur + i] not in (0, b) and b == 0:
+                pass
+            mem[base + cur + i] |= b
+        cur += len(bits)
+        return True
+
+    for op in ops:
+        t = op.split(':')
+        c = t[0]
+        ok = True
+        if c == 'sk':
+            cur += int(t[1])
+            ok = base + cur + 8 <= lim
+        elif c == 'pad':
+            k = int(t[1])
+            ok = k > 0 and put([0] * ((k - cur % k) % k))
+        elif c == 'bit':
+            ok = put([int(t[1] != '0')])
+        elif c in ('ub', 'ab'):
+            ok = put(bytes_bits(unhex(t[1])), c == 'ab')
+        elif c in ('au', 'uu'):
+            v, b = int(t[1]), int(t[2])
+            ok = b >= 1 and v >= 0 and put(int_bits(v, b), c == 'au')
+        elif c in ('as', 'us'):
+            v, b = int(t[1]), int(t[2])
+            ok = b >= 2 and -(1 << (b - 1)) <= v < (1 << (b - 1)) and put(int_bits(v % (1 << b), b), c == 'as')
+        elif c in ('u8', 'u16', 'u32', 'u64'):
+            w, v = int(c[1:]), int(t[1])
+            ok = 0 <= v < (1 << w) and put(int_bits(v, w), True)
+        elif c in ('i8', 'i16', 'i32', 'i64'):
+            w, v = int(c[1:]), int(t[1])
+            ok = -(1 << (w - 1)) <= v < (1 << (w - 1)) and put(int_bits(v % (1 << w), w), True)
+        elif c in ('abits', 'ubits'):
+            ok = put([int(ch == '1') for ch in ('' if t[1] == '-' else t[1])], c == 'abits')
+        elif c in ('af', 'uf'):
+            ok = put(bytes_bits(pack_float(int(t[1]), struct.unpack('<d', bytes.fromhex(t[2]))[0])), c == 'af')
+        elif c in ('aa', 'ua'):
+            ok = put(bytes_bits(unhex(t[2])), c == 'aa')
+        elif c == 'fork':
+            k = int(t[1])
+            if cur % 8 or base + cur + 8 * (k + 1) > lim:
+                return None
+            stack.append((base, cur, lim))
+            base, cur, lim = base + cur, 0, base + cur + 8 * (k + 1)
+        elif c == 'join':
+            base, cur, lim = stack.pop()
+        else:
+            return None
+        if not ok:
+            return None
+    if stack:
+        return None
+    return '%d %s' % (cur, hx(bits_int(mem).to_bytes(n + 1, 'little')))
+
+
+def oracle_pydes(buf: bytes, ops: typing.List[str]) -> typing.Optional[str]:
+    """Deserializer semantics: every fetch_* returns the bits at the cursor of the implicitly zero-extended buffer"""
+    x = int.from_bytes(buf, 'little')
+    nbits = 8 * len(buf)
+    cur = 0
+    stack: typing.List[tuple] = []
+    out: typing.List[str] = []
+
+    def take(k: int) -> int:
+        nonlocal cur
+        v = ((x & ((1 << nbits) - 1)) >> cur) & ((1 << k) - 1) if cur < nbits else 0
+        cur += k
+        return v
+
+    for op in ops:
+        t = op.split(':')
+        c = t[0]
+        if c in ('ab', 'au', 'as', 'abits', 'af', 'u8', 'u16', 'u32', 'u64', 'i8', 'i16', 'i32', 'i64', 'fork') and cur % 8:
+            return None
+        if c == 'sk':
+            cur += int(t[1])
+        elif c == 'pad':
+            k = int(t[1])
+            if k <= 0:
+                return None
+            cur += (k - cur % k) % k
+        elif c in ('ab', 'ub', 'af', 'uf'):
+            k = int(t[1])
+            out.append(hx(take(8 * k).to_bytes(k, 'little')))
+        elif c in ('au', 'uu'):
+            if int(t[1]) < 1:
+                return None
+            out.append(str(take(int(t[1]))))
+        elif c in ('as', 'us'):
+            b = int(t[1])
+            if b < 2:
+                return None
+            v = take(b)
+            out.append(str(v - (1 << b) if v >> (b - 1) else v))
+        elif c in ('u8', 'u16', 'u32', 'u64'):
+            out.append(str(take(int(c[1:]))))
+        elif c in ('i8', 'i16', 'i32', 'i64'):
+            b = int(c[1:])
+            v = take(b)
+            out.append(str(v - (1 << b) if v >> (b - 1) else v))
+        elif c == 'bit':
+            out.append(str(take(1)))
+        elif c in ('abits', 'ubits'):
+            k = int(t[1])
+            v = take(k)
+            out.append(''.join(str((v >> i) & 1) for i in range(k)) or '-')
+        elif c == 'rem':
+            out.append(str(nbits - cur))
+        elif c == 'fork':
+            k = int(t[1])
+            if max(nbits - cur, 0) // 8 < k:
+                return None
+            stack.append((x, nbits, cur))
+            start = min(cur // 8, nbits // 8)
+            x, nbits, cur = (x >> (8 * start)) & ((1 << (8 * k)) - 1), 8 * k, 0
+        elif c == 'join':
+            x, nbits, cur = stack.pop()
+        else:
+            return None
+    return ','.join(out + [str(cur)])
+
+
+def canon_pydes(line: str, got: str) -> str:
+    """floats are compared as the bytes they pack to, all NaNs as 'nan' (C14 speaks of NaN-ness only)"""
+    if not line.startswith('pydes ') or ('af:' not in line and 'uf:' not in line) or got.startswith('EXC'):
+        return got
+    t = line.split(' ')
+    ops = t[2].split(';') if len(t) > 2 else []
+    toks = got.split(',')
+    k = 0
+    for op in ops:
+        o = op.split(':')
+        if o[0] in ('sk', 'pad', 'fork', 'join'):
+            continue
+        if k >= len(toks):
+            break
+        if o[0] in ('af', 'uf') and toks[k] not in ('nan', '-'):
+            size = int(o[1])
+            try:
+                v = struct.unpack(FMT[size], bytes.fromhex(toks[k]))[0]
+                if v != v:
+                    toks[k] = 'nan'
+            except Exception:
+                pass
+        k += 1
+    return ','.join(toks)
 
 
 class Pred:
@@ -299,6 +489,10 @@ def nontrivial(line: str) -> typing.Optional[str]:
         return 'gb-padded' if ln % 8 else None
     if c == 'sat':
         return 'sat'
+    if c in ('pyser', 'pydes'):
+        ops = t[2] if len(t) > 2 else ''
+        kinds = sorted({o.split(':')[0] for o in ops.split(';') if o})
+        return c + ':' + '+'.join(k for k in kinds if k not in ('sk',))[:60] if kinds else None
     if c == 'xz':
         size, off, ln = int(t[2]), int(t[3]), int(t[4])
         if ln > max(0, 8 * size - off):
@@ -407,23 +601,33 @@ def gen_c_cases(rng, tier: str) -> typing.List[str]:
     for _ in range(2000):
         L.append('sat %d %d %d' % (rng.randrange(0, 40), rng.randrange(0, 400), rng.randrange(0, 400)))
     # -- random larger ones
-    for _ in range(30000 if thorough else 3000):
+    big: typing.List[str] = []
+    for _ in range(20000 if thorough else 1500):
         ln = rng.choice([rng.randrange(0, 2100), rng.randrange(0, 300), 8 * rng.randrange(0, 200)])
         soff, doff = rng.choice([rng.randrange(0, 2500), 8 * rng.randrange(0, 300)]), rng.choice([rng.randrange(0, 2500), 8 * rng.randrange(0, 300)])
         d = content(rng, rng.randrange(3), (doff + ln + 7) // 8 + rng.randrange(0, 3))
         s = content(rng, 2, (soff + ln + 7) // 8 + rng.randrange(0, 3))
-        L.append('cp %s %d %d %s %d' % (hx(d), doff, ln, hx(s), soff))
+        big.append('cp %s %d %d %s %d' % (hx(d), doff, ln, hx(s), soff))
         size = rng.randrange(0, 300)
         buf = hx(content(rng, 2, size + rng.randrange(0, 3)))
         off = rng.choice([rng.randrange(0, 8 * size + 70), 8 * rng.randrange(0, size + 3)])
         ln2 = rng.randrange(0, 256)
         w = rng.choice([8, 16, 32, 64])
-        L.append('gu %d %s %d %d %d' % (w, buf, size, off, ln2))
-        L.append('gi %d %s %d %d %d' % (w, buf, size, off, ln2))
-        L.append('su %s %d %d %d %d' % (buf, size, off, rng.getrandbits(64), ln2))
-        L.append('si %s %d %d %d %d' % (buf, size, off, rng.getrandbits(64) - (1 << 63), ln2))
+        big.append('gu %d %s %d %d %d' % (w, buf, size, off, ln2))
+        big.append('gi %d %s %d %d %d' % (w, buf, size, off, ln2))
+        big.append('su %s %d %d %d %d' % (buf, size, off, rng.getrandbits(64), ln2))
+        big.append('si %s %d %d %d %d' % (buf, size, off, rng.getrandbits(64) - (1 << 63), ln2))
         ln3 = rng.randrange(0, 600)
-        L.append('gb %s %s %d %d %d' % (hx(content(rng, 1, (ln3 + 7) // 8 + 1)), buf, size, off, ln3))
+        big.append('gb %s %s %d %d %d' % (hx(content(rng, 1, (ln3 + 7) // 8 + 1)), buf, size, off, ln3))
+    # spread the (for the list-based model) expensive large cases evenly over the shards
+    step = max(1, len(L) // (len(big) + 1))
+    out: typing.List[str] = []
+    for k in range(0, len(L), step):
+        out.extend(L[k:k + step])
+        if big:
+            out.append(big.pop())
+    out.extend(big)
+    L = out
     return L
 
 
@@ -468,6 +672,135 @@ def gen_cpp_cases(rng, tier: str) -> typing.List[str]:
                         L.append('xsub2 %d %d %d %d %d' % (nalloc, size, off, bits, sb))
                 for nb in range(0, size + 3):
                     L.append('xsubb %d %d %d %d' % (nalloc, size, off, nb))
+    return L
+
+
+def rand_bits_value(rng, n: int) -> int:
+    return rng.choice([0, (1 << n) - 1, rng.getrandbits(n), 1 << (n - 1), 1]) & ((1 << n) - 1) if n > 0 else 0
+
+
+def gen_py_cases(rng, tier: str) -> typing.List[str]:
+    """operation sequences on the Python Serializer / Deserializer: every start offset 0..23 x every add_* / fetch_* method x
+    every bit length 1..64 (byte and bit arrays up to 80 bits), followed by a marker write/read; random longer sequences; forks"""
+    thorough = tier == 'thorough'
+    L: typing.List[str] = []
+
+    def prefix(off: int) -> typing.List[str]:
+        ops = []
+        while off > 0:
+            k = min(off, rng.choice([1, 3, 8, 13, 24]))
+            ops.append('uu:%d:%d' % (rand_bits_value(rng, k), k) if rng.random() < 0.8 else 'sk:%d' % k)
+            off -= k
+        return ops
+
+    def sval(b: int) -> int:
+        return rng.choice([-(1 << (b - 1)), (1 << (b - 1)) - 1, -1, 0, rng.randrange(-(1 << (b - 1)), 1 << (b - 1))])
+
+    def dblhex(size: int) -> str:
+        x = rng.choice([0.0, -0.0, 1.0, -2.5, 65504.0, 65520.0, 1e5, -1e39, 3.4e38, 1e-8, 5.96e-8, float('inf'), float('-inf'), rng.uniform(-70000, 70000),
+                        rng.uniform(-1, 1) * 10.0 ** rng.randrange(-45, 40)])
+        return struct.pack('<d', x).hex()
+
+    for off in range(24):
+        unal, al = [], []
+        for b in range(1, 65):
+            reps = 2 if thorough else 1
+            for _ in range(reps):
+                unal.append('uu:%d:%d' % (rand_bits_value(rng, b), b))
+                al.append('au:%d:%d' % (rand_bits_value(rng, b), b))
+                if b >= 2:
+                    unal.append('us:%d:%d' % (sval(b), b))
+                    al.append('as:%d:%d' % (sval(b), b))
+        for nb in range(0, 11):
+            h = hx(content(rng, 2, nb))
+            unal.append('ub:' + h)
+            al.append('ab:' + h)
+        for cnt in range(0, 81):
+            bs = ''.join(rng.choice('01') for _ in range(cnt)) or '-'
+            unal.append('ubits:' + bs)
+            al.append('abits:' + bs)
+        unal += ['bit:0', 'bit:1', 'pad:8', 'pad:16', 'pad:32', 'pad:64']
+        for w in (8, 16, 32, 64):
+            al += ['u%d:%d' % (w, rand_bits_value(rng, w)), 'u%d:%d' % (w, (1 << w) - 1), 'i%d:%d' % (w, sval(w)), 'i%d:%d' % (w, -(1 << (w - 1)))]
+        for size in (2, 4, 8):
+            for _ in range(4):
+                d = dblhex(size)
+                packed = pack_float(size, struct.unpack('<d', bytes.fromhex(d))[0]).hex()
+                unal.append('uf:%d:%s:%s' % (size, d, packed))
+                al.append('af:%d:%s:%s' % (size, d, packed))
+        for dt, isz in (('<u2', 2), ('<i4', 4), ('<f8', 8)):
+            h = hx(content(rng, 2, isz * rng.randrange(0, 4)))
+            unal.append('ua:%s:%s' % (dt, h))
+            al.append('aa:%s:%s' % (dt, h))
+        for op in unal + (al if off % 8 == 0 else []):
+            ops = prefix(off) + [op, 'uu:1:1', 'bit:1']
+            L.append('pyser 24 ' + ';'.join(ops))
+        # deserializer: same grid of fetches on random / short buffers (zero extension)
+        dun = ['uu:%d' % b for b in range(1, 65)] + ['us:%d' % b for b in range(2, 65)] + ['ub:%d' % k for k in range(0, 11)] + \
+              ['ubits:%d' % k for k in range(0, 81)] + ['bit', 'uf:2', 'uf:4', 'uf:8', 'pad:8', 'pad:64', 'rem']
+        dal = ['au:%d' % b for b in range(1, 65)] + ['as:%d' % b for b in range(2, 65)] + ['ab:%d' % k for k in range(0, 11)] + \
+              ['abits:%d' % k for k in range(0, 81)] + ['u8', 'u16', 'u32', 'u64', 'i8', 'i16', 'i32', 'i64', 'af:2', 'af:4', 'af:8']
+        for op in dun + (dal if off % 8 == 0 else []):
+            for size in ((0, 2, 5, 12) if not thorough else (0, 1, 2, 3, 5, 8, 12)):
+                buf = content(rng, rng.choice([1, 2, 2]), size)
+                L.append('pydes %s %s' % (hx(buf), ';'.join((['sk:%d' % off] if off else []) + [op, 'uu:3', 'bit', 'rem'])))
+    # random longer sequences
+    ser_un = ['uu', 'us', 'ub', 'ubits', 'bit', 'pad', 'uf', 'sk']
+    for _ in range(20000 if thorough else 2500):
+        ops, cur, cap = [], 0, 8 * 40
+        for _ in range(rng.randrange(1, 9)):
+            k = rng.choice(ser_un + (['au', 'as', 'ab', 'abits', 'u', 'i', 'af'] if cur % 8 == 0 else []))
+            if k in ('uu', 'au'):
+                b = rng.randrange(1, 65); op = '%s:%d:%d' % (k, rand_bits_value(rng, b), b); cur += b
+            elif k in ('us', 'as'):
+                b = rng.randrange(2, 65); op = '%s:%d:%d' % (k, sval(b), b); cur += b
+            elif k in ('ub', 'ab'):
+                nb = rng.randrange(0, 6); op = '%s:%s' % (k, hx(content(rng, 2, nb))); cur += 8 * nb
+            elif k in ('ubits', 'abits'):
+                c = rng.randrange(0, 30); op = '%s:%s' % (k, ''.join(rng.choice('01') for _ in range(c)) or '-'); cur += c
+            elif k == 'bit':
+                op = 'bit:%d' % rng.randrange(2); cur += 1
+            elif k == 'pad':
+                n = rng.choice([8, 16, 32, 64]); op = 'pad:%d' % n; cur += (n - cur % n) % n
+            elif k == 'sk':
+                c = rng.randrange(0, 20); op = 'sk:%d' % c; cur += c
+            elif k in ('uf', 'af'):
+                size = rng.choice([2, 4, 8]); d = dblhex(size)
+                op = '%s:%d:%s:%s' % (k, size, d, pack_float(size, struct.unpack('<d', bytes.fromhex(d))[0]).hex()); cur += 8 * size
+            elif k == 'u':
+                w = rng.choice([8, 16, 32, 64]); op = 'u%d:%d' % (w, rand_bits_value(rng, w)); cur += w
+            else:
+                w = rng.choice([8, 16, 32, 64]); op = 'i%d:%d' % (w, sval(w)); cur += w
+            if cur + 8 > cap:
+                break
+            ops.append(op)
+        L.append('pyser 40 ' + ';'.join(ops))
+        dops = []
+        cur = 0
+        for _ in range(rng.randrange(1, 9)):
+            k = rng.choice(['uu:%d' % rng.randrange(1, 65), 'us:%d' % rng.randrange(2, 65), 'ub:%d' % rng.randrange(0, 6), 'ubits:%d' % rng.randrange(0, 30), 'bit',
+                            'pad:%d' % rng.choice([8, 16, 32, 64]), 'sk:%d' % rng.randrange(0, 20), 'uf:%d' % rng.choice([2, 4, 8]), 'rem'])
+            dops.append(k)
+        L.append('pydes %s %s' % (hx(content(rng, 2, rng.randrange(0, 30))), ';'.join(dops)))
+    # forks (delimited serialization pattern) and deserializer forks
+    for _ in range(3000 if thorough else 400):
+        pre = 8 * rng.randrange(0, 4)
+        n = rng.randrange(0, 12)
+        child, used = [], 0
+        while True:
+            b = rng.randrange(1, 33)
+            if used + b > 8 * n - 32 or len(child) > 4:
+                break
+            child.append('uu:%d:%d' % (rand_bits_value(rng, b), b)); used += b
+        if 8 * n >= 32:
+            nbytes = (used + 7) // 8
+            ops = prefix(pre) + ['fork:%d' % n, 'sk:32'] + child + ['pad:8', 'join', 'u32:%d' % nbytes, 'sk:%d' % (8 * nbytes), 'uu:5:3']
+            L.append('pyser 24 ' + ';'.join(ops))
+        size = rng.randrange(0, 16)
+        k = rng.randrange(0, size + 1)
+        at = rng.randrange(0, max(1, size - k + 1))
+        L.append('pydes %s %s' % (hx(content(rng, 2, size)), ';'.join((['sk:%d' % (8 * at)] if at else []) +
+                                                                    ['fork:%d' % k, 'uu:%d' % rng.randrange(1, 65), 'ub:%d' % rng.randrange(0, 6), 'rem', 'join', 'sk:%d' % (8 * k), 'uu:7', 'rem'])))
     return L
 
 
@@ -561,6 +894,19 @@ def build_cpp_targets(scratch: str, tier: str) -> typing.Tuple[dict, typing.List
     return targets, errors
 
 
+def build_py_target(scratch: str) -> typing.Tuple[dict, typing.List[str]]:
+    out = os.path.join(scratch, 'py_support')
+    p = core.run([core.PY, '-m', 'nunavut', '--target-language', 'py', '--generate-support', 'only', '--outdir', out], env=core.repo_env(), timeout=120)
+    if p.returncode != 0 or not os.path.exists(os.path.join(out, 'nunavut_support.py')):
+        return {}, ['py: nnvg failed: ' + p.stdout[-1500:]]
+    pydeps = os.path.join(core.BUILD, 'pydeps')
+    if not os.path.isdir(os.path.join(pydeps, 'numpy')):
+        return {}, ['py: NumPy is not installed in build/pydeps (run tools/setup.sh)']
+    env = core.repo_env()
+    env['PYTHONPATH'] = os.pathsep.join([out, pydeps, env['PYTHONPATH']])
+    return {'py_support': {'exe': core.PY, 'cmd': [core.PY, os.path.join(HARNESS, 'c14_py_drv.py')], 'env': env, 'model': 'py'}}, []
+
+
 # ---------------------------------------------------------------------------------------------------------------------
 # running a shard: every implementation build, the extracted model, the oracle
 # ---------------------------------------------------------------------------------------------------------------------
@@ -580,8 +926,10 @@ def run_shard(job: dict) -> dict:
     expected = [oracle(l) for l in lines]
     model_out: typing.Dict[str, typing.Optional[typing.List[str]]] = {}
     if job.get('model_exe'):
-        for m in sorted({job.get('model_for_all') or t['model'] for t in job['targets'].values()}):
+        for m in sorted({job.get('model_for_all') or t['model'] for t in job['targets'].values()} - {None}):
             out, err, rc = _run_exe([job['model_exe'], m], text)
+            if m == 'py':
+                out = [canon_pydes(l, g) for l, g in zip(lines, out)]
             model_out[m] = out if (rc == 0 and len(out) == len(lines)) else None
             if model_out[m] is None:
                 res['crash'].append({'target': 'model ' + m, 'stderr': err, 'lines_answered': len(out)})
@@ -597,7 +945,8 @@ def run_shard(job: dict) -> dict:
             res['strata'].add((int(t[5]) % 8, int(t[2]) % 8, int(t[3]) % 8))
     res['nontrivial_keys'] = len(seen)
     for name, t in sorted(job['targets'].items()):
-        out, err, rc = _run_exe([t['exe']], text, env=dict(os.environ, ASAN_OPTIONS='detect_leaks=1:abort_on_error=0', UBSAN_OPTIONS='print_stacktrace=1'))
+        out, err, rc = _run_exe(t.get('cmd') or [t['exe']], text,
+                                env=t.get('env') or dict(os.environ, ASAN_OPTIONS='detect_leaks=1:abort_on_error=0', UBSAN_OPTIONS='print_stacktrace=1'))
         if rc != 0 or len(out) != len(lines):
             k = min(len(out), len(lines) - 1)
             res['crash'].append({'target': name, 'line': lines[k], 'returncode': rc, 'stderr': err, 'lines_answered': len(out),
@@ -678,7 +1027,8 @@ def main(chk: core.Check, replay: typing.Optional[str] = None) -> int:
         broken.append('model does not build/extract: ' + log[-400:])
     targets, errors = build_c_targets(scratch, chk.tier)
     cpp_targets, cpp_errors = build_cpp_targets(scratch, chk.tier)
-    for e in errors + cpp_errors:
+    py_targets, py_errors = build_py_target(scratch)
+    for e in errors + cpp_errors + py_errors:
         broken.append('implementation build: ' + e[:600])
 
     timing['builds_s'] = round(time.time() - t0 - timing['coq_s'], 1)
@@ -686,20 +1036,26 @@ def main(chk: core.Check, replay: typing.Optional[str] = None) -> int:
     # 3. cases
     if replay:
         doc = json.load(open(replay))
-        lines = [doc['line']] if doc.get('line') else gen_c_cases(chk.rng, chk.tier) + gen_cpp_cases(chk.rng, chk.tier) + gen_f16_cases(chk.rng, chk.tier)
+        lines = [doc['line']] if doc.get('line') else gen_c_cases(chk.rng, chk.tier) + gen_cpp_cases(chk.rng, chk.tier) + gen_py_cases(chk.rng, chk.tier) + gen_f16_cases(chk.rng, chk.tier)
     else:
-        lines = gen_c_cases(chk.rng, chk.tier) + gen_cpp_cases(chk.rng, chk.tier) + gen_f16_cases(chk.rng, chk.tier)
+        lines = gen_c_cases(chk.rng, chk.tier) + gen_cpp_cases(chk.rng, chk.tier) + gen_py_cases(chk.rng, chk.tier) + gen_f16_cases(chk.rng, chk.tier)
     chunk = 20000
     tie_target = 'c_any_noasserts' if 'c_any_noasserts' in targets else None
     mexe = model_exe if ok_model else None
     # float16 lines do not depend on the endianness rendering: one model run; the big pack grid goes to two builds only
     all_targets = dict(targets, **cpp_targets)
+    is_py = lambda l: l.startswith('py')
+    # the Python target converts halves with struct (ties to even): property oracle only, no model in the loop
+    py_f16 = {k: dict(v, model=None) for k, v in py_targets.items()}
+    f16_sample = [l for i, l in enumerate(lines) if l.startswith('f16u ') or (l.startswith('f16p ') and i % (4 if chk.tier == 'thorough' else 16) == 0)]
     grid_targets = {k: v for k, v in all_targets.items() if k in ('c_any_noasserts', 'c_little_asserts_asan', 'cpp_cpp14_noasserts')} or all_targets
     cpp_noassert = {k: v for k, v in cpp_targets.items() if 'noasserts' in k}
     is_x = lambda l: l[0] == 'x'
     is_xsub = lambda l: l.startswith('xsub')
     jobs = []
-    for fam_targets, fam_lines, mfa in ((all_targets, [l for l in lines if not l.startswith('f16p ') and not is_x(l)], None),
+    for fam_targets, fam_lines, mfa in ((all_targets, [l for l in lines if not l.startswith('f16p ') and not is_x(l) and not is_py(l)], None),
+                                        (py_targets, [l for l in lines if is_py(l)], None),
+                                        (py_f16, f16_sample, None),
                                         (cpp_targets, [l for l in lines if is_x(l) and not is_xsub(l)], None),
                                         (cpp_noassert, [l for l in lines if is_xsub(l)], None),
                                         (grid_targets, [l for l in lines if l.startswith('f16p ')], 'c-any')):
@@ -744,7 +1100,7 @@ def main(chk: core.Check, replay: typing.Optional[str] = None) -> int:
                 'masked tail byte, too-small error, clamp, zero extension, unaligned access)',
         'samples': [lines[i] for i in range(0, len(lines), max(1, len(lines) // 25))][:30],
         'traces_validated_against_impl': sum(r['compared_model'] for r in results),
-        'distribution': {'calls': len(lines), 'by_command': kinds, 'by_branch': branches, 'implementation_builds': sorted(all_targets),
+        'distribution': {'calls': len(lines), 'by_command': kinds, 'by_branch': branches, 'implementation_builds': sorted(all_targets) + sorted(py_targets),
                          'copy_strata_src_mod8_dst_mod8_len_mod8': '%d of 512' % len(strata),
                          'float16_pack_C_vs_struct_e': f16_vs_struct,
                          'float16_rounding_rules': 'C/C++ nunavutFloat16Pack: nearest, ties away from zero (proved: f16_rounding_rule); '
